@@ -1,4 +1,5 @@
 """C07 -- operands are evaluated exactly once, left to right; skipped operands never run (spec/AnkoSem.tla)."""
+import json, os
 import vlib, corecheck, progs
 
 LEVEL = "model_checking"
@@ -11,12 +12,36 @@ RULE = ("Every operand-bearing form (script functions with 0..6 parameters throu
 def run(ctx):
     binp = vlib.build_harness(ctx, "vmharness")
     ctx.assumptions += ["whether operands run at all when a call is rejected for its argument count is left open (only 'never twice' is asserted there)",
-                        "go statements are checked for evaluation order under C16"]
+                        "go statements: the pipeline programs of C16 (spec/AnkoChan.tla) whose go calls take probe calls as operands, on every call path"]
     fams = [("c07-forms", progs.fam_c07()), ("c07-rand", progs.rand_programs(ctx.seed + 21, 300 if ctx.quick() else 5000)), ("c07-rand2", progs.rand2_programs(ctx.seed + 121, 400 if ctx.quick() else 6000))]
     for tag, fam in fams:
         corecheck.run_family(ctx, binp, fam, tag)
+    go_forms(ctx)
     return vlib.finish(ctx, RULE, exhaustive=True)
 
 
+def go_forms(ctx):
+    """go f(operands): evaluated exactly once, by the go statement, in source order, before the statement after it -- on the direct call path
+    (<= 4 parameters) and on the reflect path (5 parameters, variadic).  The programs are C16's pipelines with probe operands."""
+    binc = vlib.build_harness(ctx, "chanharness")
+    cfgs = [{"ns": ns, "cap": cap, "items": [1, 2], "expected": [1 + 10 * ns, 2 + 10 * ns], "mode": "range", "elem": "int64", "goargs": True, "shape": sh}
+            for ns in (1, 2, 3) for cap in (0, 1) for sh in ("", "fn5", "fnvar")]
+    cp = os.path.join(ctx.work, "go_forms.ndjson")
+    vlib.write_ndjson(cp, cfgs)
+    rk = os.path.join(ctx.work, "go_forms.json")
+    vlib.run_cmd(ctx, [binc, "pipe", cp, rk, "10" if ctx.quick() else "100", str(ctx.seed)], timeout=1800)
+    r = json.load(open(rk))
+    ctx.cov["evaluations"] += r["runs"]
+    ctx.cov["distinct_nontrivial"] += len(cfgs)
+    ctx.cov["traces_validated_against_impl"] += r["runs"]
+    ctx.cov["go_forms"] = {"configurations": len(cfgs), "runs": r["runs"]}
+    for m in (r.get("mismatches") or [])[:6]:
+        vlib.violation(ctx, "go call %s: %s; expected %s, got %s" % (json.dumps(m["case"]), m["what"], m["expected"], m["got"]),
+                       {"kind": "pipe", "case": m["case"], "src": m["src"], "expected": m["expected"], "got": m["got"], "what": m["what"]})
+
+
 def replay(ctx, path):
+    if json.load(open(path)).get("kind") == "pipe":
+        import c16
+        return c16.replay(ctx, path)
     return corecheck.replay_one(ctx, vlib.build_harness(ctx, "vmharness"), path)
